@@ -111,6 +111,20 @@ func RunConc[C any](run func(C, *Obs) *Failure) func(Conc[C], *Obs) *Failure {
 	}
 }
 
+// TempDir creates a scratch directory next to the shard's output file (under /verif/.work, never
+// under /tmp when run by the driver) and returns it with its cleanup function.
+func TempDir(prefix string) (string, func(), error) {
+	base := filepath.Dir(os.Getenv("VERIF_OUT"))
+	if os.Getenv("VERIF_OUT") == "" {
+		base = ""
+	}
+	dir, err := os.MkdirTemp(base, prefix)
+	if err != nil {
+		return "", func() {}, err
+	}
+	return dir, func() { os.RemoveAll(dir) }, nil
+}
+
 // Obs collects what one executed case looked like.
 type Obs struct {
 	classes    []string
